@@ -388,7 +388,127 @@ func c04Storm(a []string) string {
 
 var lastStormShed int
 
+// ---- (d) a caller that leaves in the middle of its call ---------------------------------------------
+
+type abandonImpl struct {
+	mu      sync.Mutex
+	seen    map[string]int
+	entered chan struct{}
+	gate    chan struct{}
+}
+
+func (p *abandonImpl) Activate(a bus.Activation, h pong.PingPongSignalHelper) error { return nil }
+func (p *abandonImpl) OnTerminate()                                              {}
+func (p *abandonImpl) Hello(a string) (string, error) {
+	p.mu.Lock()
+	p.seen[a]++
+	p.mu.Unlock()
+	if a == "slow" {
+		close(p.entered)
+		<-p.gate
+	}
+	return "echo:" + a, nil
+}
+func (p *abandonImpl) Ping(a string) error { return nil }
+
+// sv.abandon <calls>: a client calls a method that takes its time and closes its connection before the
+// method returns: the answer cannot be written.  The calls of another client, on another connection, to the
+// same object still run once each and get their own answer.
+func svAbandon(a []string) string {
+	log.SetOutput(ioutil.Discard)
+	calls, _ := strconv.Atoi(a[0])
+	l := &auListener{ch: make(chan qnet.Stream), closed: make(chan struct{})}
+	srv, err := bus.StandAloneServer(l, bus.Yes{}, bus.PrivateNamespace())
+	if err != nil {
+		return "setup-error:" + err.Error()
+	}
+	defer srv.Terminate()
+	impl := &abandonImpl{seen: map[string]int{}, entered: make(chan struct{}), gate: make(chan struct{})}
+	if _, err := srv.NewService("PingPong", pong.PingPongObject(impl)); err != nil {
+		return "setup-error:" + err.Error()
+	}
+	connect := func() (qnet.EndPoint, bus.Client, error) {
+		x, y := gonet.Pipe()
+		l.ch <- qnet.ConnStream(y)
+		ep := qnet.NewEndPoint(qnet.ConnStream(x))
+		if err := bus.AuthenticateUser(ep, "", ""); err != nil {
+			return nil, nil, err
+		}
+		return ep, bus.NewClient(bus.NewContext(ep)), nil
+	}
+	epA, clA, err := connect()
+	if err != nil {
+		return "setup-error:" + err.Error()
+	}
+	epB, clB, err := connect()
+	if err != nil {
+		return "setup-error:" + err.Error()
+	}
+	defer epB.Close()
+	meta, err := bus.GetMetaObject(clB, 1, 1)
+	if err != nil {
+		return "setup-error:" + err.Error()
+	}
+	hello, _, err := meta.MethodID("hello", "(s)")
+	if err != nil {
+		return "setup-error:" + err.Error()
+	}
+	go clA.Call(nil, 1, 1, hello, svString("slow"))
+	select {
+	case <-impl.entered:
+	case <-time.After(3 * time.Second):
+		return "setup-error:the slow call did not start"
+	}
+	epA.Close()
+	time.Sleep(5 * time.Millisecond)
+	close(impl.gate) // the method returns; its answer has nowhere to go
+	type res struct {
+		arg, out string
+		err      error
+	}
+	results := make(chan res, calls)
+	for i := 0; i < calls; i++ {
+		arg := fmt.Sprintf("b%d", i)
+		go func() {
+			p, err := clB.Call(nil, 1, 1, hello, svString(arg))
+			out := ""
+			if err == nil && len(p) >= 4 {
+				out = string(p[4:])
+			}
+			results <- res{arg, out, err}
+		}()
+	}
+	for i := 0; i < calls; i++ {
+		select {
+		case r := <-results:
+			if r.err != nil {
+				return "fail:call " + r.arg + ": " + r.err.Error()
+			}
+			if r.out != "echo:"+r.arg {
+				return "fail:call " + r.arg + " answered " + r.out
+			}
+		case <-time.After(4 * time.Second):
+			return fmt.Sprintf("fail:%d of %d calls made after another client left in the middle of its call have no outcome", calls-i, calls)
+		}
+	}
+	impl.mu.Lock()
+	defer impl.mu.Unlock()
+	for i := 0; i < calls; i++ {
+		if n := impl.seen[fmt.Sprintf("b%d", i)]; n != 1 {
+			return fmt.Sprintf("fail:call b%d ran %d times", i, n)
+		}
+	}
+	return "ok"
+}
+
 func init() {
+	executors["sv.abandon"] = func(a []string) string {
+		r := svAbandon(a)
+		if r != "ok" {
+			lastFailDetail = r
+		}
+		return r
+	}
 	executors["sv.reset"] = func(a []string) string { return svReset() }
 	executors["sv.frame"] = func(a []string) string {
 		u := func(i int) uint32 { v, _ := strconv.ParseUint(a[i], 10, 32); return uint32(v) }
@@ -458,6 +578,14 @@ func runC04(r *Rand, tier string, o *Out) {
 	// the witness of the repaired defect: a zero-argument method, then cancel and capability frames for it
 	for _, l := range []string{"sv.reset", "sv.frame 1 1 1 101 -", "sv.frame 7 1 1 101 -", "sv.frame 6 1 1 101 -", "sv.frame 4 1 1 101 -", "sv.frame 7 2 1 100 0100000061"} {
 		o.Do("P", l, true)
+	}
+	// a caller that leaves in the middle of its call; then the calls of another client to the same object
+	for _, n := range []int{1, 4, 12} {
+		op := fmt.Sprintf("sv.abandon %d", n)
+		if out := o.Do("P", op, true); out != "ok" {
+			o.Fail("calls after another client left in the middle of its call: "+strings.SplitN(strings.TrimPrefix(out, "fail:"), ":", 2)[0], op+" => "+out)
+		}
+		o.Count("scenario:caller-leaves-in-the-middle")
 	}
 	// (b) client side: several clients on one endpoint, crossing, duplicated and unknown replies
 	scripts := 150
